@@ -15,6 +15,11 @@ pub use egglog_ast::generic_ast_helpers::INTERNAL_SYMBOL_PREFIX;
 #[derive(Debug, Clone, PartialEq, Eq)]
 pub struct SymbolGen {
     hint_to_count: HashMap<String, usize>,
+    /// Every name handed out so far. Names are `prefix + hint + count`, so two
+    /// different hints can spell the same name (hint `K1` with count 5 and hint
+    /// `K15` with count 0 are both `K15`); a candidate already in this set is
+    /// skipped.
+    generated: HashSet<String>,
     reserved_string: String,
     leave_off_zero: bool,
 }
@@ -24,8 +29,31 @@ impl SymbolGen {
     pub fn new(reserved_string: String) -> Self {
         Self {
             hint_to_count: HashMap::default(),
+            generated: HashSet::default(),
             reserved_string,
             leave_off_zero: true,
+        }
+    }
+
+    /// The next unused name for `name_hint`.
+    fn next_name(&mut self, name_hint: &str) -> String {
+        loop {
+            let entry = self.hint_to_count.entry(name_hint.to_string()).or_insert(0);
+            let count_before = *entry;
+            *entry += 1;
+            let name = format!(
+                "{}{}{}",
+                self.reserved_string,
+                name_hint,
+                if self.leave_off_zero && count_before == 0 {
+                    "".to_string()
+                } else {
+                    count_before.to_string()
+                }
+            );
+            if self.generated.insert(name.clone()) {
+                return name;
+            }
         }
     }
 
@@ -59,19 +87,7 @@ pub trait FreshGen<Head: ?Sized, Leaf> {
 
 impl FreshGen<str, String> for SymbolGen {
     fn fresh(&mut self, name_hint: &str) -> String {
-        let entry = self.hint_to_count.entry(name_hint.to_string()).or_insert(0);
-        let count_before = *entry;
-        *entry += 1;
-        format!(
-            "{}{}{}",
-            self.reserved_string,
-            name_hint,
-            if self.leave_off_zero && count_before == 0 {
-                "".to_string()
-            } else {
-                count_before.to_string()
-            }
-        )
+        self.next_name(name_hint)
     }
 }
 
@@ -83,22 +99,7 @@ impl FreshGen<String, String> for SymbolGen {
 
 impl FreshGen<ResolvedCall, ResolvedVar> for SymbolGen {
     fn fresh(&mut self, name_hint: &ResolvedCall) -> ResolvedVar {
-        let entry = self
-            .hint_to_count
-            .entry(format!("{name_hint}"))
-            .or_insert(0);
-        let count = *entry;
-        *entry += 1;
-        let name = format!(
-            "{}{}{}",
-            self.reserved_string,
-            name_hint,
-            if self.leave_off_zero && count == 0 {
-                "".to_string()
-            } else {
-                count.to_string()
-            }
-        );
+        let name = self.next_name(&format!("{name_hint}"));
         let sort = match name_hint {
             ResolvedCall::Func(f) => f.output.clone(),
             ResolvedCall::Primitive(prim) => prim.output().clone(),
